@@ -17,10 +17,11 @@
                       /verif/harness/master.rs prints for each measurement:
                          <kind>/g<G>v<V>/<qualifier %02x>/e<is_event>f<has_flags>/<index>=<value>,<flags %02x>,<time>
                       (octet strings: ...=<hex>; absolute time g50v1: abs/g50v1/<q>/e0f0/0=<ms>).
-     3. [mcovered]  : false when a well-formed object section contains a header whose callbacks the
-                      conversion model does not describe (device attributes g0, analog dead-bands g34
-                      with a range, g102, command events g13 / g43): the engine then marks the script
-                      `model-unmodelled` and it is not compared.
+     3. [mcovered]  : false when a well-formed object section contains a header whose callbacks are not
+                      described here (device attributes g0, command events g13 / g43): the engine then
+                      marks the script `model-unmodelled` and it is not compared.  Analog dead-bands (g34
+                      with a range) and g102 are not in the conversion model either but are printed
+                      directly ([raw_range_items]).
      4. [run]       : MT.run after every receive event was given the computed verdict and items
                       (whatever verdict / items the event carried are dropped).
 
@@ -120,7 +121,8 @@ Definition meas_chars (g v q : N) (ie hf : bool) (t : otype) (idx : N) (m : cmea
 (* what the ReadHandler is given: a measurement with the HeaderInfo of its header, or an absolute time *)
 Inductive mitem :=
 | MiMeas (g v q : N) (ie hf : bool) (t : otype) (idx : N) (m : cmeas)
-| MiAbs (q t : N).
+| MiAbs (q t : N)
+| MiText (chars : list N).      (* analog dead-bands g34 and unsigned integers g102 with a range: printed at once *)
 
 (* handle_abs_time: HeaderInfo::new(variation, qualifier, false, false), item.time *)
 Definition abs_chars (q t : N) : list N :=
@@ -130,6 +132,7 @@ Definition item_chars (it : mitem) : list N :=
   match it with
   | MiMeas g v q ie hf t idx m => meas_chars g v q ie hf t idx m
   | MiAbs q t => abs_chars q t
+  | MiText c => c
   end.
 
 (* the observations of ONE header of the conversion model (an [OHdr] followed by its [OMeas]) as
@@ -172,14 +175,34 @@ Record hres := mk_hres { hr_cto : option (tq * N); hr_items : list mitem; hr_mod
 Definition quiet (cto : option (tq * N)) : hres := mk_hres cto [] true.
 Definition unmodelled (cto : option (tq * N)) : hres := mk_hres cto [] false.
 
+(* the two ranged kinds outside the conversion model that are simple enough to print directly:
+   handle_analog_input_dead_band (g34v1 u16 -> `a<n>`, g34v2 u32 -> `b<n>`, g34v3 f32 -> `c<bits %08x>`) and
+   handle_unsigned_integer (g102v1 -> `<n>`); HeaderInfo::new(var, qualifier, false, false) *)
+Definition deadband_chars (v x : N) : list N :=
+  if v =? 1 then 97 :: dec_chars x else if v =? 2 then 98 :: dec_chars x else 99 :: hex_chars 8 x.
+
+Definition raw_range_items (kind : list N) (g v q start count : N) (size : nat) (value : N -> list N)
+  (d : list N) : list mitem :=
+  map (fun ib => MiText (info_chars kind g v q false false ++ [47] ++ dec_chars (fst ib) ++ [61]
+                         ++ value (le_dec (snd ib))))
+      (number_from start (chunks_of (N.to_nat count) size d)).
+
 Definition ranged_items (cto : option (tq * N)) (g v q start stop : N) (p : apayload) : hres :=
+  let generic d :=
+    if (g =? 110) || match find_info ranged_info g v with Some _ => true | None => false end then
+      mk_hres cto (obs_items q None (extract_range g v start stop d)) true
+    else if g =? 80 then quiet cto                           (* internal indications *)
+    else unmodelled cto in
   match p with
   | PyNone => quiet cto                                        (* variation 0, g0v254: extraction not supported *)
-  | PyBits _ _ d | PyDBits _ _ d | PyFixedRange _ _ d | PyOctetsRange _ _ d =>
-      if (g =? 110) || match find_info ranged_info g v with Some _ => true | None => false end then
-        mk_hres cto (obs_items q None (extract_range g v start stop d)) true
-      else if g =? 80 then quiet cto                           (* internal indications *)
-      else unmodelled cto                                      (* g34 dead-bands, g102 *)
+  | PyFixedRange _ count d =>
+      if g =? 34 then
+        mk_hres cto (raw_range_items [97; 105; 100; 98] g v q start count (if v =? 1 then 2 else 4)
+                                     (deadband_chars v) d) true
+      else if (g =? 102) && (v =? 1) then
+        mk_hres cto (raw_range_items [117; 105; 110; 116] g v q start count 1 dec_chars d) true
+      else generic d
+  | PyBits _ _ d | PyDBits _ _ d | PyOctetsRange _ _ d => generic d
   | _ => unmodelled cto                                        (* device attributes *)
   end.
 
